@@ -203,10 +203,17 @@ def check_string(s, table, r, rdkit=False, case_extra=None):
     try:
         out = _SF.decoder(s)
     except _SF.DecoderError:
-        # symbols here are all inside the grammar: a rejection is C02's finding too, but for C01 the claim is
-        # about returned strings; count it loudly
+        # C01 is about returned strings.  A rejection is fine when the derivation reaches a symbol that is outside
+        # the grammar *under this table* (explicit H above the capacity, e.g. [CH2] under {'?': 0}); the reference
+        # model decides that.  A rejection of a string whose every reached symbol is in the grammar is reported.
+        from mc.oracles import refmodel
+        try:
+            refmodel.decode(misc.tokenize(s), table)
+        except refmodel.Reject:
+            r.cov["rejected: a reached symbol is outside the grammar under the table (C02's business)"] += 1
+            return None
         r.violation("rejected-valid-string", dict({"kind": "string", "selfies": s, "table": table}, **(case_extra or {})),
-                    "decoder rejected %r" % s[:200])
+                    "decoder rejected %r although every reached symbol is in the grammar" % s[:200])
         return None
     except Exception as e:
         r.violation("escaped-exception:" + type(e).__name__,
